@@ -26,12 +26,27 @@ def _addresses(tr):
     return None, None
 
 
+def _norm(wires):
+    """the simulator's clock reads 1us at virtual time 0 (timestamps are non-zero) while delays count from 0:
+    a datagram sent at "1" with delivery time 1 + d is delivered when the clock reads d"""
+    for w in wires:
+        if w.t == 1 and w.at is not None and w.at > 1:
+            w.at -= 1
+            w.t = 0
+    return wires
+
+
 def o_c11(tr):
+    return _run(tr)[0]
+
+
+def _run(tr):
     bad = []
-    wires = tr.of("wire")
+    wires = _norm(tr.of("wire"))
     client, server = _addresses(tr)
+    cov = {"unvalidated_server_datagrams": 0, "reached_limit": 0}
     if client is None:
-        return bad
+        return bad, cov
     # ------------------------------------------------------------------ amplification, per peer address
     # events: (time, order, kind, record); deliveries to the server sort before the server's sends of the same
     # instant (lenient: a datagram that arrives in the same instant counts as already received)
@@ -70,6 +85,10 @@ def o_c11(tr):
                                     f"{s['recv']} received (3x = {3 * s['recv']}) before the address was validated"))
             s["sent"] += n
             s["sat"] = max(s["sat"] - n, 0)
+            if not s["validated"] and peer == client:
+                cov["unvalidated_server_datagrams"] += 1
+                if s["sent"] >= 3 * s["recv"]:
+                    cov["reached_limit"] += 1
     # ------------------------------------------------------------------ client Initial datagrams are padded
     for w in wires:
         if w.src != client or w.action in FORGED or w.action.startswith("corrupt") or w.action.startswith("stray:"):
@@ -111,7 +130,7 @@ def o_c11(tr):
         else:
             if r.len > trig.len:
                 bad.append(("e2e:c11:reply-not-smaller", f"{r.len}-byte long-header reply to a {trig.len}-byte {tkind} datagram that belongs to no connection"))
-    return bad
+    return bad, cov
 
 
 def stats(tr):
@@ -120,6 +139,7 @@ def stats(tr):
     client, server = _addresses(tr)
     replies = [w for w in wires if w.action == "to-attacker"]
     return {
+        **_run(tr)[1],
         "strays": sum(1 for w in wires if w.action.startswith("stray:")),
         "replies": len(replies),
         "vn_replies": sum(1 for w in replies if w.head[:1] and w.head[0] & 0x80 and w.head[1:5] == b"\0\0\0\0"),
